@@ -58,6 +58,26 @@ type PetQuery struct {
 	WithMe []interface{}
 	// a Dog answered by ANOTHER Go type (a view struct with the same field names) under an object-typed field
 	DogView *DogView
+	// a Hound answered by another Go type than the registered one
+	HoundView *HoundView
+}
+
+// PetHound is bound to the object type Hound by RegisterType (neither its name nor an @go directive says so).
+type PetHound struct {
+	Name  string
+	Pack  int
+	Buddy interface{}
+	Twin  *PetHound
+}
+
+func (h *PetHound) PetKind() string { return "hound" }
+
+// HoundView is a second Go type the application uses for Hound under an object-typed field.
+type HoundView struct {
+	Name  string
+	Pack  int
+	Buddy interface{}
+	Twin  *HoundView
 }
 
 // DogView is a second Go type the application uses for the object type Dog; it is bound to nothing and only ever stands
@@ -97,9 +117,10 @@ func PetsModelV(variant int) *model.Schema {
 		{Kind: model.Object, Name: "Lion", Interfaces: []string{"Pet"}, Dirs: goDir("BigSdbCat"), Fields: []*model.FieldDef{f("name", str), f("roar", str), f("buddy", model.Named("Pet")), f("twin", model.Named("Lion"))}},
 		{Kind: model.Object, Name: "Cat", Interfaces: []string{"Pet"}, Dirs: goDir(catGo), Fields: []*model.FieldDef{f("name", str), f("lives", integer), f("buddy", model.Named("Pet")), f("twin", model.Named("Cat"))}},
 		{Kind: model.Object, Name: "Dog", Interfaces: []string{"Pet"}, Fields: []*model.FieldDef{f("name", str), f("tricks", model.ListOf(str)), f("buddy", model.Named("Pet")), f("twin", model.Named("Dog"))}},
+		{Kind: model.Object, Name: "Hound", Interfaces: []string{"Pet"}, Fields: []*model.FieldDef{f("name", str), f("pack", integer), f("buddy", model.Named("Pet")), f("twin", model.Named("Hound"))}},
 		{Kind: model.Union, Name: "Animal", Members: members},
 		{Kind: model.Object, Name: "Query", Interfaces: []string{"Pet"}, Fields: []*model.FieldDef{
-			f("name", str), f("buddy", model.Named("Pet")), f("twin", model.Named("Query")), f("me", model.Named("Pet")), f("withMe", model.ListOf(model.Named("Pet"))), f("dogView", model.Named("Dog")),
+			f("name", str), f("buddy", model.Named("Pet")), f("twin", model.Named("Query")), f("me", model.Named("Pet")), f("withMe", model.ListOf(model.Named("Pet"))), f("dogView", model.Named("Dog")), f("houndView", model.Named("Hound")),
 			f("pets", model.ListOf(model.Named("Pet"))), f("animals", model.ListOf(model.Named("Animal"))), f("pet", model.Named("Pet")), f("animal", model.Named("Animal")),
 			f("cats", model.ListOf(model.Named("Cat"))), f("lions", model.ListOf(model.Named("Lion"))),
 			f("typed", model.ListOf(model.Named("Pet"))), f("dogCopy", model.Named("Dog"))}},
@@ -129,6 +150,10 @@ func PetsData(variant int) (*PetRoot, *model.Graph) {
 	nd1 := node("Dog", map[string]interface{}{"name": "rex", "tricks": model.VList{"sit", "roll"}})
 	nc1.F["buddy"], nl1.F["buddy"], nd1.F["buddy"] = nd1, nc1, nl1
 	nc1.F["twin"], nc2.F["twin"], nl1.F["twin"], nd1.F["twin"] = nc2, nc1, nl1, nd1
+	h1 := &PetHound{Name: "rolf", Pack: 5, Buddy: c2}
+	h1.Twin = h1
+	nh1 := node("Hound", map[string]interface{}{"name": "rolf", "pack": 5, "buddy": nc2})
+	nh1.F["twin"] = nh1
 	objs := []interface{}{c1, l1, d1, c2}
 	nodes := []interface{}{nc1, nl1, nd1, nc2}
 	k := variant % len(objs)
@@ -138,10 +163,16 @@ func PetsData(variant int) (*PetRoot, *model.Graph) {
 	for _, o := range ro {
 		q.Typed = append(q.Typed, o.(PetI))
 	}
-	q.Name, q.Buddy, q.Twin, q.Me, q.WithMe = "the root", d1, q, q, []interface{}{d1, q, c2}
+	q.Name, q.Buddy, q.Twin, q.Me, q.WithMe = "the root", d1, q, q, []interface{}{d1, q, h1, c2}
 	nq := node("Query", map[string]interface{}{"name": "the root", "buddy": nd1,"pets": model.VList(rn), "animals": model.VList(rn), "pet": rn[0], "animal": rn[1],
 		"cats": model.VList{nc1, nc2}, "lions": model.VList{nl1}, "typed": model.VList(rn), "dogCopy": nd1})
-	nq.F["twin"], nq.F["me"], nq.F["withMe"] = nq, nq, model.VList{nd1, nq, nc2}
+	nq.F["twin"], nq.F["me"], nq.F["withMe"] = nq, nq, model.VList{nd1, nq, nh1, nc2}
+	hv := &HoundView{Name: "view of rolf", Pack: 1}
+	hv.Twin = hv
+	q.HoundView = hv
+	nhv := node("Hound", map[string]interface{}{"name": "view of rolf", "pack": 1, "buddy": nil})
+	nhv.F["twin"] = nhv
+	nq.F["houndView"] = nhv
 	dv := &DogView{Name: "view of rex", Tricks: []string{"sit"}}
 	dv.Twin = dv
 	q.DogView = dv
@@ -158,6 +189,10 @@ func NewPetsRoot(variant int) (*ggql.Root, *model.Schema, *model.Graph, error) {
 	ro, g := PetsData(variant)
 	root := ggql.NewRoot(ro)
 	if err := root.ParseString(ms.SDL(model.SDLOpts{})); err != nil {
+		return nil, nil, nil, err
+	}
+	// the one explicit registration of the pets schema: a Go type whose name says nothing about its object type
+	if err := root.RegisterType(&PetHound{}, "Hound"); err != nil {
 		return nil, nil, nil, err
 	}
 	return root, ms, g, nil
